@@ -117,6 +117,11 @@ func (k *check) child(sub string, cacheHome string, job any, outFile string, int
 	jf := outFile + ".job.json"
 	b, _ := json.Marshal(job)
 	os.WriteFile(jf, b, 0o644)
+	if sub != "c20-stdrt" {
+		// the cache workers allocate a decompressor per operation and keep a tiny heap: with the
+		// default GOGC the collector runs every few operations and dominates the cost
+		extraEnv = append([]string{"GOGC=1000", "GOMAXPROCS=2"}, extraEnv...)
+	}
 	r := core.Exec(filepath.Dir(jf), k.env(cacheHome, extraEnv...), timeout, "", k.c.Self, sub, jf)
 	if r.TimedOut {
 		k.c.Inconclusive(sub + "-timeout")
